@@ -84,7 +84,11 @@ where
         PRECISION_MUST_BE_NONZERO: PRECISION > 0;
     );
 
-    if probabilities.len() < 2 || probabilities.len() > Probability::max_value().as_() {
+    if probabilities.len() < 2
+        || probabilities.len() > Probability::max_value().as_()
+        || (PRECISION < <usize as BitArray>::BITS && probabilities.len() > 1usize << PRECISION)
+    {
+        // (Each symbol needs a weight of at least 1, and the weights sum up to `1 << PRECISION`.)
         return Err(());
     }
 
@@ -96,17 +100,29 @@ where
     if !normalization.is_normal() || !normalization.is_sign_positive() {
         return Err(());
     }
-    let scale = remaining_free_weight.into() / normalization;
+    // Reject negative entries before we do any arithmetic with them (they can hide behind a
+    // positive `normalization`).
+    if probabilities.iter().any(|&prob| prob < F::zero()) {
+        return Err(());
+    }
+    let free_weight: f64 = remaining_free_weight.into();
+    let scale = free_weight / normalization;
 
     let mut slots = probabilities
         .iter()
         .enumerate()
         .map(|(original_index, &prob)| {
-            if prob < F::zero() {
-                return Err(());
-            }
             let prob: f64 = prob.into();
-            let current_free_weight = (prob * scale).as_();
+            // Rounding errors (or a `scale` that overflows to infinity for tiny
+            // `normalization`s) must not make us hand out more than what's left; the loops
+            // below redistribute the weights optimally anyway.
+            let current_free_weight: Probability = if scale.is_finite() {
+                (prob * scale).as_()
+            } else {
+                // Tiny `normalization`; `prob / normalization <= 1` can't overflow.
+                (prob / normalization * free_weight).as_()
+            };
+            let current_free_weight = current_free_weight.min(remaining_free_weight);
             remaining_free_weight = remaining_free_weight - current_free_weight;
             let weight = current_free_weight + Probability::one();
 
@@ -120,15 +136,15 @@ where
                 -prob * log1p(-1.0f64 / weight.into())
             };
 
-            Ok(Slot {
+            Slot {
                 original_index,
                 prob,
                 weight,
                 win,
                 loss,
-            })
+            }
         })
-        .collect::<Result<Vec<_>, _>>()?;
+        .collect::<Vec<_>>();
 
     // Distribute remaining weight evenly among symbols with highest wins.
     while remaining_free_weight != Probability::zero() {
